@@ -18,7 +18,12 @@ Corners:
       'nsprefix': packages (sub-packages, further root packages) that declare the SAME nsPrefix with different nsURIs and
                   hold classes of the same name; instances of the further packages' classes in polymorphic containment
                   slots (xsi:type written) and as roots; documents cross-loaded original->reloaded, original->original
-                  copy, reloaded->original, every object's class compared by its qualified package path.
+                  copy, reloaded->original, every object's class compared by its qualified package path.  Sub-packages
+                  may be NAMED LIKE A CLASSIFIER of their parent (legal Ecore), with references into them ('#//X/Y');
+                  the namesake classifier itself is never a reference target there (known finding
+                  F-C10-namesake-classifier-referenced, re-observed on three fixed witnesses per run).
+                  Correspondence: coq/Model/NameFrag.v (run_namefrag: walk of name-based fragments, sub-packages
+                  first) against resource.resolve(eURIFragment()) for every package and classifier of these metamodels.
   correspondence (ties coq/Gen/EcoreMM.v, i.e. the translator's reading of pyecore/ecore.py, to the running library):
       (a) every row of the generated table against the live reflection of pyecore.ecore (names, kinds, types, bounds,
           containment, derived/transient, effective eOpposite),
@@ -1594,7 +1599,7 @@ def resave_scenarios(ctx, out):
     ecore()
     rng = common.rng_for(ctx.seed, 'C10:resave')
     thorough = ctx.tier == 'thorough'
-    n = 1000 if thorough else 150
+    n = 1000 if thorough else 130
     hard_stop = time.time() + (150 if thorough else 40)       # safety net only; the count decides
     stats, modes, seen = {}, {}, {}
     cases = trips_total = 0
@@ -1883,7 +1888,7 @@ def enumlit_scenarios(ctx, out):
     ecore()
     rng = common.rng_for(ctx.seed, 'C10:enumlit')
     thorough = ctx.tier == 'thorough'
-    n = 2000 if thorough else 300
+    n = 2000 if thorough else 200
     hard_stop = time.time() + (120 if thorough else 30)       # safety net only; the count decides
     stats, kinds, seen = {}, {}, {}
     cases = 0
@@ -1939,19 +1944,14 @@ def _pk(name, uri, prefix):
 
 
 def gen_prefix_desc(rng, stats=None):
+    """Packages sharing an nsPrefix; classes named like classes of other packages; and SUB-PACKAGES NAMED LIKE A
+    CLASSIFIER of their parent package (legal Ecore: names are unique among the classifiers and among the sub-packages
+    of a package, not across the two).  A fragment '#//X/Y' then has to be walked into the sub-package X.  The namesake
+    classifier itself is never the target of a reference here: '#//X' meaning the class is known finding
+    F-C10-namesake-classifier-referenced (see namesake_witnesses)."""
     P = rng.choice(['geo', 'geo', 'm', 'geo_1', 'p'])
     base = 'http://verif/c10/px/' + rng.choice(['a', 'b.c'])
     uid = [0]
-
-    def own_features(c, points):
-        for _ in range(rng.randint(0, 2)):
-            uid[0] += 1
-            if points and rng.random() < 0.25:
-                c['features'].append(_ref(f'at{uid[0]}', rng.choice(points), upper=rng.choice([1, -1])))
-            else:
-                c['features'].append(_attr(f'z{uid[0]}', rng.choice(['ecore:EInt', 'ecore:EString']),
-                                           upper=rng.choice([1, 1, -1])))
-
     root = _pk('geo', base + '/1.0', P)
     shape = _cls('Shape', abstract=rng.random() < 0.5, features=[_attr('name', 'ecore:EString')])
     point = _cls('Point', supers=['Shape'], features=[_attr('x', 'ecore:EInt'), _attr('y', 'ecore:EInt')])
@@ -1965,33 +1965,49 @@ def gen_prefix_desc(rng, stats=None):
     rng.shuffle(root['classifiers'])
     roots = [root]
     pkgs = [(0, '', root)]                   # (root index, path inside that root, description)
-    points = {0: ['Point']}                  # per root: paths of the classes named Point so far ('@k:' for others)
-    shapes = {0: ['Shape', 'Point']}
-    same_prefix = same_name = 0
+    points = [(0, 'Point')]                  # (root index, path) of the classes named Point so far
+    shapes = [(0, 'Shape'), (0, 'Point')]    # ... of all subclasses of Shape
+    referenced = {(0, 'Shape')}              # classes something points to (supertype, type of a reference)
+    reserved = set()                         # classes named like a sibling sub-package: never pointed to
+    same_prefix = same_name = namesakes = refs_into_namesake = 0
+    namesake_pkgs = []
+
+    def join(path, nm):
+        return (path + '/' if path else '') + nm
+
+    def pick(pool, ri):
+        cand = [x for x in pool if x not in reserved] or [(0, 'Shape')]
+        k, q = rng.choice(cand)
+        referenced.add((k, q))
+        return q if k == ri else f'@{k}:{q}'
+
+    def own_features(c, ri):
+        for _ in range(rng.randint(0, 2)):
+            uid[0] += 1
+            if rng.random() < 0.25:
+                c['features'].append(_ref(f'at{uid[0]}', pick(points, ri), upper=rng.choice([1, -1])))
+            else:
+                c['features'].append(_attr(f'z{uid[0]}', rng.choice(['ecore:EInt', 'ecore:EString']),
+                                           upper=rng.choice([1, 1, -1])))
 
     def fill(ri, path, d):
         """classes of a further package: some named like classes of an earlier package"""
         nonlocal same_name
-
-        def see(k, q):
-            return q if k == ri else f'@{k}:{q}'
-        all_points = [see(k, q) for k, qs in points.items() for q in qs]
-        all_shapes = [see(k, q) for k, qs in shapes.items() for q in qs]
         names = rng.sample(['Point', 'Point', 'Label', 'Shape', 'Node'], rng.randint(1, 3))
         for nm in dict.fromkeys(names):
-            sup = rng.choice(all_points if nm == 'Point' and rng.random() < 0.7 else all_shapes)
+            sup = pick(points if nm == 'Point' and rng.random() < 0.7 else shapes, ri)
             c = _cls(nm, supers=[sup], abstract=rng.random() < 0.1)
-            own_features(c, all_points)
+            own_features(c, ri)
             d['classifiers'].append(c)
-            q = (path + '/' if path else '') + nm
-            shapes.setdefault(ri, []).append(q)
+            q = join(path, nm)
+            shapes.append((ri, q))
             if nm == 'Point':
-                points.setdefault(ri, []).append(q)
+                points.append((ri, q))
             if nm in ('Point', 'Shape'):
                 same_name += 1
         if rng.random() < 0.3:
-            c = _cls('Group', supers=[rng.choice(all_shapes)],
-                     features=[_ref('members', rng.choice(all_shapes), upper=-1, containment=True)])
+            c = _cls('Group', supers=[pick(shapes, ri)],
+                     features=[_ref('members', pick(shapes, ri), upper=-1, containment=True)])
             d['classifiers'].append(c)
 
     for i in range(rng.choice([1, 1, 2, 3])):
@@ -2005,18 +2021,99 @@ def gen_prefix_desc(rng, stats=None):
         else:
             ri, ppath, parent = rng.choice(pkgs)
             nm = f'v{i + 2}'
+            taken = {sp['name'] for sp in parent['subpackages']}
+            free = [c['name'] for c in parent['classifiers']
+                    if (ri, join(ppath, c['name'])) not in referenced and c['name'] not in taken]
+            namesake = bool(free) and rng.random() < 0.5
+            if namesake:
+                nm = rng.choice(free)                  # sub-package named like a classifier nothing points to
+                reserved.add((ri, join(ppath, nm)))
+                namesakes += 1
             d = _pk(nm, f'{base}/{i + 2}.0', prefix)
             parent['subpackages'].append(d)
-            path = (ppath + '/' if ppath else '') + nm
+            path = join(ppath, nm)
+            if namesake:
+                namesake_pkgs.append((ri, path, d))
         fill(ri, path, d)
         pkgs.append((ri, path, d))
+    # references from outside into the sub-packages that have a namesake classifier next to them
+    for ri, path, d in namesake_pkgs:
+        inside = [x for x in ((ri, join(path, c['name'])) for c in d['classifiers'] if c['name'] != 'Group')
+                  if x not in reserved]
+        for _ in range(rng.randint(0, 2)):
+            if not inside:
+                break
+            uid[0] += 1
+            owner = rng.choice([c for c in root['classifiers'] if c['name'] in ('Point', 'Drawing')])
+            k, q = rng.choice(inside)
+            owner['features'].append(_ref(f'nk{uid[0]}', q if k == 0 else f'@{k}:{q}', upper=rng.choice([1, -1])))
+            refs_into_namesake += 1
     if stats is not None:
-        stats['packages_declaring_a_prefix_already_taken'] = stats.get('packages_declaring_a_prefix_already_taken', 0) \
-            + same_prefix
-        stats['classes_named_like_a_class_of_another_package'] = \
-            stats.get('classes_named_like_a_class_of_another_package', 0) + same_name
-        stats['metamodels_with_several_roots'] = stats.get('metamodels_with_several_roots', 0) + (len(roots) > 1)
+        for k, v in (('packages_declaring_a_prefix_already_taken', same_prefix),
+                     ('classes_named_like_a_class_of_another_package', same_name),
+                     ('metamodels_with_several_roots', int(len(roots) > 1)),
+                     ('subpackages_named_like_a_sibling_classifier', namesakes),
+                     ('extra_references_into_such_subpackages', refs_into_namesake)):
+            stats[k] = stats.get(k, 0) + v
     return root if len(roots) == 1 else {'roots': roots}
+
+
+# A classifier X next to a sub-package X that IS the target of a reference: its fragment '#//X' is also the fragment of
+# the sub-package, and the resolver takes the sub-package (known finding F-C10-namesake-classifier-referenced).
+NAMESAKE_SIG = {'property': 'C10', 'clause': 'namesake',
+                'construct': 'classifier-referenced-by-fragment-resolves-to-sibling-subpackage'}
+
+
+def namesake_witnesses():
+    def pk(classifiers):
+        d = _pkg(classifiers)
+        sub = _pk('X', 'http://verif/c10/w/X', 'wx')
+        sub['classifiers'].append(_cls('G'))
+        d['subpackages'].append(sub)
+        return d
+    enum = {'kind': 'enum', 'name': 'X', 'literals': [['a', 0]], 'default': None, 'annotations': []}
+    return [
+        ('eType', pk([_cls('X'), _cls('A', features=[_ref('x', 'X')])])),
+        ('eSuperTypes', pk([_cls('X'), _cls('A', supers=['X'])])),
+        ('attribute-type', pk([enum, _cls('A', features=[_attr('k', 'X')])])),
+    ]
+
+
+def namesake_witness_case(desc, tmp):
+    """-> None (round trip fine) or (kind, text)"""
+    os.makedirs(tmp, exist_ok=True)
+    orig = build(desc)
+    sig0 = signature_all(orig)
+    try:
+        reloaded, _ = save_reload(orig, tmp)
+    except Exception as e:
+        known = type(e).__name__ == 'BadValueError' and 'EPackage' in str(e)
+        return ('known' if known else 'other'), f'reload raises {type(e).__name__}: {e}'[:260]
+    diffs = sig_diff(sig0, signature_all(reloaded))
+    if diffs:
+        lab, pair, p, a, b = diffs[0]
+        return 'other', f'{pair[0]}.{pair[1]} at {p}: original {a} / reloaded {b}'
+    return None
+
+
+def namesake_witness_cases(ctx, out):
+    n = seen = 0
+    tmp_root = tempfile.mkdtemp(prefix='c10w_', dir=scratch())
+    try:
+        for j, (what, desc) in enumerate(namesake_witnesses()):
+            r = namesake_witness_case(desc, os.path.join(tmp_root, f'w{j}'))
+            n += 1
+            if r is None:
+                continue
+            seen += 1
+            kind, text = r
+            sig = NAMESAKE_SIG if kind == 'known' else dict(NAMESAKE_SIG, construct='namesake-' + what + '-other-failure')
+            out.fail(sig, f'class/enum X next to sub-package X, X used as {what}: {text}',
+                     {'kind': 'namesake-witness', 'which': what, 'desc': desc})
+    finally:
+        shutil.rmtree(tmp_root, ignore_errors=True)
+    out.coverage['namesake_classifier_referenced_witnesses'] = n
+    out.coverage['namesake_classifier_referenced_witnesses_failing'] = seen
 
 
 def _count_foreign(dump, home, acc):
@@ -2071,7 +2168,62 @@ def cross_load(src_mm, dst_mm, seed, tag, tmp, fails, stats=None, nper=2):
                               + (f'load raises {got[1]}' if isinstance(got, tuple) else _first_dump_diff(want, got))})
 
 
-def prefix_case(desc, inst_seed, tmp, stats=None):
+def name_fragment_ties(roots, model, stats, diffs):
+    """Correspondence of coq/Model/NameFrag.v (run_namefrag: the walk of name-based fragments, sub-packages first) with
+    the running resolver: every package and every classifier of a loaded metamodel, its own fragment resolved by the
+    resource, against the model's answer on the same names (numbers)."""
+    E = ecore()
+    res = roots[0].eResource
+    for root in roots:
+        num = {}
+
+        def n(name):
+            return num.setdefault(name, len(num) + 1)
+
+        def enc(p):
+            out = [n(p.name), len(p.eClassifiers)] + [n(c.name) for c in p.eClassifiers] + [len(p.eSubpackages)]
+            for sp in p.eSubpackages:
+                out += enc(sp)
+            return out
+        tree = enc(root)
+
+        def names_of(o):
+            names = []
+            while o is not root and o is not None:
+                names.append(o.name)
+                o = o.eContainer()
+            return list(reversed(names)) if o is root else None
+
+        targets = []
+        for p in all_packages(root):
+            if p is not root:
+                targets.append(p)
+            targets.extend(p.eClassifiers)
+        for t in targets:
+            segs = [n(x) for x in names_of(t)]
+            want = model.ask('namefrag', tree + [len(segs)] + segs)
+            got_obj = None
+            try:
+                got_obj = res.resolve(t.eURIFragment())
+                gn = names_of(got_obj) if got_obj is not None else None
+                if gn is None:
+                    got = [0]
+                else:
+                    got = [1 if isinstance(got_obj, E.EPackage) else 2] + [n(x) for x in gn]
+            except Exception:
+                got = [0]
+            stats['name_fragments_resolved_in_model_and_implementation'] = \
+                stats.get('name_fragments_resolved_in_model_and_implementation', 0) + 1
+            if got_obj is not t:
+                stats['name_fragments_designating_the_namesake_subpackage'] = \
+                    stats.get('name_fragments_designating_the_namesake_subpackage', 0) + 1
+            if list(want) != got:
+                diffs.append((f'fragment {t.eURIFragment()} of {t.eClass.name} {t.name}: model (sub-packages first) '
+                              f'{list(want)} / resource.resolve {got} (names as numbers {num})',
+                              {'tree': tree, 'segments': segs}))
+
+
+def prefix_case(desc, inst_seed, tmp, stats=None, model=None, diffs=None):
     """-> list of {'construct','what'}"""
     fails = []
     os.makedirs(tmp, exist_ok=True)
@@ -2080,12 +2232,17 @@ def prefix_case(desc, inst_seed, tmp, stats=None):
     try:
         reloaded, path = save_reload(orig, tmp)
     except Exception as e:
-        return [{'construct': 'save-or-load-raises', 'what': f'{type(e).__name__}: {e}'[:300]}]
-    diffs = sig_diff(sig0, signature_all(reloaded))
-    if diffs:
-        lab, pair, p, a, b = diffs[0]
+        reloaded = None
+        fails.append({'construct': 'save-or-load-raises', 'what': f'{type(e).__name__}: {e}'[:300]})
+    if model is not None and orig[0].eResource is not None:
+        name_fragment_ties(orig, model, stats, diffs)       # in the resource the metamodel was saved from
+    if reloaded is None:
+        return fails
+    sdiffs = sig_diff(sig0, signature_all(reloaded))
+    if sdiffs:
+        lab, pair, p, a, b = sdiffs[0]
         fails.append({'construct': 'signature-' + lab,
-                      'what': f'{pair[0]}.{pair[1]} at {p}: original {a} / reloaded {b} ({len(diffs)} place(s))'})
+                      'what': f'{pair[0]}.{pair[1]} at {p}: original {a} / reloaded {b} ({len(sdiffs)} place(s))'})
     probs = check_instantiable(reloaded, random.Random(inst_seed))
     if probs:
         fails.append({'construct': 'instantiate', 'what': '; '.join(probs[:3])})
@@ -2100,10 +2257,16 @@ def nsprefix_scenarios(ctx, out):
     ecore()
     rng = common.rng_for(ctx.seed, 'C10:nsprefix')
     thorough = ctx.tier == 'thorough'
-    n = 1500 if thorough else 200
+    n = 1500 if thorough else 150
     hard_stop = time.time() + (120 if thorough else 30)       # safety net only; the count decides
     stats, kinds, seen = {}, {}, {}
     cases = 0
+    diffs = []
+    try:
+        model = common.Model()
+    except Exception as e:
+        model = None
+        out.diff(f'extracted model unavailable: {e}', {})
     tmp_root = tempfile.mkdtemp(prefix='c10n_', dir=scratch())
     try:
         for i in range(n):
@@ -2113,10 +2276,23 @@ def nsprefix_scenarios(ctx, out):
             inst_seed = rng.randrange(1 << 30)
             tmp = os.path.join(tmp_root, f'n{i}')
             try:
-                fails = prefix_case(desc, inst_seed, tmp, stats)
+                try:
+                    fails = prefix_case(desc, inst_seed, tmp, stats, model, diffs)
+                except Exception as e:
+                    if model is None or 'model' not in str(e).lower():
+                        raise
+                    out.diff(f'run_namefrag failed: {e}', {})
+                    model = None
+                    fails = prefix_case(desc, inst_seed, tmp, stats)
             finally:
                 shutil.rmtree(tmp, ignore_errors=True)
             cases += 1
+            if diffs:
+                what, c = diffs[0]
+                if not seen.get('tie'):
+                    seen['tie'] = True
+                    out.diff('name-based fragments: ' + what, dict(c, desc=desc))
+                del diffs[:]
             for f in fails:
                 if f['construct'] in seen:
                     stats['repeat_failures'] = stats.get('repeat_failures', 0) + 1
@@ -2130,13 +2306,22 @@ def nsprefix_scenarios(ctx, out):
                 finally:
                     shutil.rmtree(tmp, ignore_errors=True)
                 what = again[0]['what'] if again else f['what']
-                out.fail({'property': 'C10', 'clause': 'equal-nsPrefix', 'construct': f['construct']},
-                         f'equal-nsPrefix/{f["construct"]}: {what}',
+                out.fail({'property': 'C10', 'clause': 'package-naming', 'construct': f['construct']},
+                         f'package-naming/{f["construct"]}: {what}',
                          {'scenario': 'nsprefix', 'seed': ctx.seed, 'tier': ctx.tier, 'index': i,
                           'desc': small if again else desc, 'inst_seed': inst_seed,
                           'history': [['prefix-metamodel', i], ['check', f['construct']]]})
     finally:
         shutil.rmtree(tmp_root, ignore_errors=True)
+        if model is not None:
+            model.close()
+    out.coverage['nsprefix_name_fragments_resolved_in_model_and_implementation'] = \
+        stats.get('name_fragments_resolved_in_model_and_implementation', 0)
+    out.coverage['nsprefix_name_fragments_designating_the_namesake_subpackage'] = \
+        stats.get('name_fragments_designating_the_namesake_subpackage', 0)
+    if 'traces_validated_against_impl' in out.coverage:
+        out.coverage['traces_validated_against_impl'] += \
+            stats.get('name_fragments_resolved_in_model_and_implementation', 0)
     out.coverage['nsprefix_cases'] = cases
     out.coverage['nsprefix_metamodels'] = dict(sorted(kinds.items()))
     out.coverage['nsprefix_instance_documents_cross_loaded'] = stats.get('docs', 0)
@@ -2353,6 +2538,7 @@ def run(ctx, out):
     # --- scenario families with their own PRNG streams (replayed through common.scenario_replay)
     for fam in (resave_scenarios, enumlit_scenarios, nsprefix_scenarios):
         fam(ctx, out)
+    namesake_witness_cases(ctx, out)
     out.coverage['evaluations'] += out.coverage.get('resave_cases', 0) + out.coverage.get('enumlit_cases', 0) \
         + out.coverage.get('nsprefix_cases', 0)
     out.coverage['rule'] += ('; plus one edit-and-resave case (a generated metamodel edited by a random refactoring '
@@ -2384,6 +2570,14 @@ def replay(ctx, rep):
     if case.get('scenario'):
         return common.scenario_replay(ctx, rep, {'resave': resave_scenarios, 'enumlit': enumlit_scenarios,
                                                 'nsprefix': nsprefix_scenarios})
+    if case.get('kind') == 'namesake-witness':
+        tmp = tempfile.mkdtemp(prefix='c10p_', dir=scratch())
+        try:
+            r = namesake_witness_case(case['desc'], tmp)
+        finally:
+            shutil.rmtree(tmp, ignore_errors=True)
+        print('REPRODUCED ' + r[1] if r else 'not reproduced')
+        return 1 if r else 0
     tmp = tempfile.mkdtemp(prefix='c10p_', dir=scratch())
     try:
         if case.get('kind') == 'corpus':
